@@ -2,7 +2,8 @@
 # runs every registered quick check on the current tree and validates the evidence (use before committing evidence)
 cd "$(dirname "$0")/.."
 TIER=${1:-quick}
+[ -x .venv/bin/python ] || ./setup.sh >/dev/null 2>&1
 for id in $(.venv/bin/python -c "import json;print(' '.join(c['property_id'] for c in json.load(open('MANIFEST.json'))['checks']))"); do
-  ./check $id --tier $TIER 2>&1 | grep -v conda | grep -E "^(VIOLATION|KNOWN|$id )" | cut -c1-220
+  /usr/bin/time -f "$id wall %es" ./check $id --tier $TIER 2>&1 | grep -v conda | grep -E "^(VIOLATION|KNOWN|NOTE|$id )" | cut -c1-220
 done
 .venv/bin/python tools/validate.py 2>&1 | grep -v conda | grep -v "^ok"
